@@ -62,7 +62,9 @@ Near(lo, hi, ranks) == ({lo - 1, lo, lo + 1, hi - 1, hi, hi + 1} \cap ranks)
 WrongKinds == {PNone, PBool(TRUE), PInt(IZero), PFloat(FHalf), PStr(1, TRUE, 0), PBytes(1, 0),
                PList(<<>>), PDict([x \in {} |-> PNone]), PDt("naive"), PObj("L"), PObj("K"),
                \* sized but not sliceable, small and with more entries than an error message quotes
-               PSet(3), PSet(1001), PIntDict(1001)}
+               PSet(3), PSet(1001), PIntDict(1001),
+               \* sequences whose items would fit a list of small integers, but which are not lists
+               PRange(2), PByteArray}
 \* a wire-level valid value as a python-level value (structs/unions become instances)
 RECURSIVE Pool(_, _, _)
 Pool(sc, t, d) ==
